@@ -96,6 +96,11 @@ func cmdSelftest(args []string) int {
 		}
 		s.Close()
 	}
+	if err := rewriteSelfTest(30000, 1); err != nil {
+		fmt.Println("selftest:", err)
+		return 2
+	}
+	fmt.Println("selftest: term rewrites agree with literal terms on 30000 random expressions")
 	fmt.Println("selftest: ok")
 	return 0
 }
